@@ -162,6 +162,15 @@ def size_sweep(chk, thorough, rng, cap):
             c = std[base]
             cfg = rawdrv.Cfg("v3", user="u" * L, engine=e, auth=c.auth, akt=c.akt, akm=c.akm, priv=c.priv, pkt=c.pkt, pkm=c.pkm)
             plans.append((base, cfg, [small[(L * 7 + j) % len(small)] for j in range(2)] + [big[(L * 11 + j * 5) % len(big)] for j in range(4)]))
+    # user names and engine ids beyond the RFC's 32 octets (the library takes what it is given): every length form of their headers
+    for L in (33, 40, 64, 127, 128, 129, 200, 255, 256, 300):
+        for base in ("v3-noauth", "v3-md5", "v3-sha1-aes"):
+            c = std[base]
+            cfg = rawdrv.Cfg("v3", user="n" * L, engine=e, auth=c.auth, akt=c.akt, akm=c.akm, priv=c.priv, pkt=c.pkt, pkm=c.pkm)
+            plans.append((base, cfg, [small[(L + j) % len(small)] for j in range(3)]))
+            eng = bytes([0x80, 0, 0x1f, 0x88] + [(i * 3 + L) % 256 for i in range(L - 4)])
+            cfg2 = rawdrv.Cfg("v3", user="u", engine=eng, auth=c.auth, akt=c.akt, akm=c.akm, priv=c.priv, pkt=c.pkt, pkm=c.pkm)
+            plans.append((base + "-engine%d" % L, cfg2, [small[(L + j + 1) % len(small)] for j in range(3)]))
     # OID-level length forms: 1..3 OIDs whose contents are 120..135 / 250..262 octets long
     for L in list(range(120, 136)) + list(range(250, 263)) + [300, 500]:
         plans.append(("v2c-longoid", rawdrv.Cfg("v2c", community="public"), [(-L, 1), (-L, 2), (-L, 3)]))
